@@ -48,7 +48,7 @@ def transcription_conforms(uniq):
         except fjets.DomainError as ex:
             raise vlib.MachineryError('fjets rejects the specification program %s: %s' % ('.'.join(r['prog']), ex))
         jf = exprs.jet_floats(r['jet'])
-        d = max(abs(x - y) for x, y in zip(j, jf)) / max(max(abs(v) for v in jf), 1e-300)
+        d = max(abs(x - y) for x, y in zip(j, jf)) / max(max(abs(v) for v in jf), 1.0)      # intermediates are O(1) even when the program cancels to 0 (arcsin(sin u) - u)
         worst = max(worst, d)
         if d > 1e-11:
             raise vlib.MachineryError('fjets disagrees with spec/Jets.tla on %s (c=%s): %.3g' % ('.'.join(r['prog']), r['c'], d))
@@ -68,14 +68,23 @@ def generic_records(uniq, tier, seed):
         seen.add(k)
         for p in G['points']:
             try:
-                j = fjets.run_program(r['prog'], 1.0, p)
+                j, isc = fjets.run_program(r['prog'], 1.0, p, want_scale=True)
             except fjets.DomainError:
                 continue
-            out.append(dict(prog=r['prog'], c=[1, 1], p=p, jet=[list(float(v).as_integer_ratio()) for v in j], entire=r['entire']))
+            out.append(dict(prog=r['prog'], c=[1, 1], p=p, jet=[list(float(v).as_integer_ratio()) for v in j], entire=r['entire'], iscale=isc))
     cap = G['max_records'][tier]
     if len(out) > cap:
         out = random.Random(seed + 11).sample(out, cap)
     return out
+
+
+def generic_sigma(r, n, a):
+    """local scale; at the generic inner points at least the size of the program's intermediate values (the float oracle and numpy's
+    own evaluation of a cancelling program carry rounding noise of that size)"""
+    sigma = exprs.local_scale(r['jet'], n, a)
+    if 'iscale' in r:
+        sigma = max(sigma, (1.0 + abs(a)) * math.factorial(n) * r['iscale'])
+    return sigma
 
 
 LOSSY = ('arcsin', 'arctan')
@@ -235,7 +244,7 @@ def run(tier, rep):
         if n > len(r['jet']) - 1:
             continue
         exact = exprs.exact_derivative(r['jet'], n)
-        sigma = exprs.local_scale(r['jet'], n, a)
+        sigma = generic_sigma(r, n, a)
         if shape != ([2] if arr else []):
             rep.violation('shape:%s' % m, dict(prog=r['prog'], shape=shape), '%s: result shape %s' % (name, shape))
             continue
